@@ -13,9 +13,12 @@ import (
 )
 
 // verifFullLimiter: a DefaultLimiter with a precise strategy of limit 1 over a fixed limit.
-func verifFullLimiter() (*DefaultLimiter, *strategy.PreciseStrategy) {
-	st := strategy.NewPreciseStrategy(1)
-	l, err := NewDefaultLimiter(limit.NewFixedLimit("f", 1, nil), 1000000000, 1000000000, 1000000000, 100, st, limit.NoopLimitLogger{}, core.EmptyMetricRegistryInstance)
+func verifFullLimiter() (*DefaultLimiter, *strategy.PreciseStrategy) { return verifFullLimiterN(1) }
+
+// verifFullLimiterN: the same with limit n.
+func verifFullLimiterN(n int) (*DefaultLimiter, *strategy.PreciseStrategy) {
+	st := strategy.NewPreciseStrategy(n)
+	l, err := NewDefaultLimiter(limit.NewFixedLimit("f", n, nil), 1000000000, 1000000000, 1000000000, 100, st, limit.NoopLimitLogger{}, core.EmptyMetricRegistryInstance)
 	verif.Assert("limiter-constructed", err == nil)
 	return l, st
 }
@@ -155,5 +158,37 @@ func VerifC10_Queue_TwoParked() {
 	verif.Assert("no-lost-handoff", verif.Not(o.lost))
 	verif.Assert("two-parked-busy-is-tokens-owned", o.busyIsServed)
 	verif.Assert("two-parked-served-in-configured-order", o.inOrder)
+	verif.Reach("end")
+}
+
+// VerifC10_Queue_TwoParkedTwoReleases: limit 2, both tokens held, two callers parked (arrival order
+// fixed), then BOTH holders complete concurrently (two releasing threads racing inside unblock): at
+// quiescence nobody is blocked while capacity is free - every release hands its unit to a waiter.
+//
+//verif:harness property=C10 theory=bv tier=quick timers=off unwind=3 unwindcut=1 clock=frozen maxpaths=60000
+func VerifC10_Queue_TwoParkedTwoReleases() {
+	inner, st := verifFullLimiterN(2)
+	ord := []QueueOrdering{OrderingFIFO, OrderingLIFO}[verif.Choice("ordering", 2)]
+	lim := NewQueueBlockingLimiterFromConfig(inner, QueueLimiterConfig{Ordering: ord, MaxBacklogSize: 10, MaxBacklogTimeout: time.Hour})
+	h1, ok1 := lim.Acquire(context.Background())
+	h2, ok2 := lim.Acquire(context.Background())
+	verif.Assert("setup-holds-both-tokens", ok1 && ok2 && st.GetBusyCount() == 2)
+	var wOK, wDone [2]bool
+	verif.SpawnAfter("w0", func() {
+		l, ok := lim.Acquire(context.Background())
+		wOK[0], wDone[0] = ok && l != nil, true
+	})
+	verif.SpawnAfter("w1", func() {
+		l, ok := lim.Acquire(context.Background())
+		wOK[1], wDone[1] = ok && l != nil, true
+	}, "w0")
+	verif.SpawnAfter("r1", func() { h1.OnSuccess() }, "w0", "w1")
+	verif.SpawnAfter("r2", func() { h2.OnSuccess() }, "w0", "w1")
+	verif.Parallel()
+	busy := st.GetBusyCount()
+	nBlocked := verif.B2I(verif.Blocked("w0")) + verif.B2I(verif.Blocked("w1"))
+	nServed := verif.B2I(verif.And(wDone[0], wOK[0])) + verif.B2I(verif.And(wDone[1], wOK[1]))
+	verif.Assert("two-releases-no-lost-handoff", verif.Not(verif.And(nBlocked > 0, busy < 2)))
+	verif.Assert("two-releases-busy-is-tokens-owned", busy == nServed)
 	verif.Reach("end")
 }
